@@ -33,6 +33,7 @@ type FuncContract struct {
 	NoReturn     bool
 	NoPanicProps []string
 	NoFrame      bool
+	SigReadProps []string
 	Where        string
 	Bounded      string
 }
@@ -93,7 +94,7 @@ var labelRe = regexp.MustCompile(`^([a-zA-Z_][a-zA-Z0-9_.\-]*):\s+`)
 
 var clauseKeywords = map[string]bool{"func": true, "pred": true, "specfunc": true, "axiom": true, "lemma": true, "ghost": true,
 	"requires": true, "ensures": true, "modifies": true, "let": true, "loop": true, "trusted": true, "inline": true,
-	"noreturn": true, "assert": true, "bounded": true, "nopanic": true, "noframe": true}
+	"noreturn": true, "assert": true, "bounded": true, "nopanic": true, "noframe": true, "sigreads": true}
 
 // loadContractFile parses one contract file. pkg is the package name used to qualify
 // unqualified function keys ("" for spec files whose keys are fully qualified).
@@ -162,11 +163,7 @@ func (cs *Contracts) loadContractText(path, pkg, text string) error {
 			if err != nil {
 				return Clause{}, err
 			}
-			p := props
-			if p == nil && cur != nil {
-				p = cur.Props
-			}
-			return Clause{E: e, Src: src, Props: p, Label: label, Where: where}, nil
+			return Clause{E: e, Src: src, Props: props, Label: label, Where: where}, nil
 		}
 		switch kw {
 		case "func":
@@ -278,6 +275,8 @@ func (cs *Contracts) loadContractText(path, pkg, text string) error {
 			cur.Inline = true
 		case "noframe":
 			cur.NoFrame = true
+		case "sigreads":
+			cur.SigReadProps = props
 		case "noreturn":
 			cur.NoReturn = true
 		case "nopanic":
